@@ -358,6 +358,18 @@ let () =
           | _ -> failwith "bad token") toks in
       print_endline (String.concat "," (List.map (fun l -> string_of_int (List.length l)) (G.c05_members ops)))
     done with End_of_file -> ())
+  | [| _; "c18-escape" |] ->
+    (* stdin: hex spellings; stdout: hex of what the literal printer writes per the regenerated switch table, or NONE *)
+    (try while true do
+      let line = String.trim (input_line stdin) in
+      if line <> "" then begin
+        let sp = if line = "-" then "" else unhex line in
+        let bytes = List.init (String.length sp) (fun i -> n_of_int (Char.code sp.[i])) in
+        match G.c18_escape bytes with
+        | Some out -> print_endline (let s = String.concat "" (List.map (fun b -> Printf.sprintf "%02x" (int_of_n b)) out) in if s = "" then "-" else s)
+        | None -> print_endline "NONE"
+      end
+    done with End_of_file -> ())
   | [| _; "c02-list" |] ->
     List.iter (fun f -> Printf.printf "%s|%s|%s|%b|%s\n" (str f.G.gf_class) (str f.G.gf_name)
                   (String.concat "," (List.map str f.G.gf_sorts)) (G.c02_exempt f) (str f.G.gf_body)) G.c02_factories
